@@ -60,7 +60,7 @@ def gen_feedback(rng, junk=False):
                                                         'gently', 'explain', 'guidance'])
     kw = {}
     if ctor in ('compliment', 'gently', 'explain', 'guidance'):
-        kw['message'] = 'msg %d' % rng.randrange(100)
+        kw['message'] = 'msg %d' % rng.randrange(100) if rng.random() < 0.85 else ''
     if ctor == 'give_partial':
         kw['_pos'] = [gen_score(rng)]
     r = rng.random
@@ -90,7 +90,7 @@ def gen_feedback(rng, junk=False):
     if r() < 0.25:
         kw['valence'] = rng.choice([-1, 0, 1])
     if ctor in ('Feedback', 'neg', 'runtime_like') and r() < 0.6:
-        kw['message'] = 'm%d' % rng.randrange(50)
+        kw['message'] = 'm%d' % rng.randrange(50) if r() < 0.85 else ''
     if r() < 0.3:
         kw['title'] = 'T%d' % rng.randrange(9)
     if r() < 0.35:
@@ -427,17 +427,31 @@ def correspondence(ctx):
 
 
 def rounding_safe(out):
-    """The exact rational total (from the implementation's own _scores strings) is not within 1e-9 of a
-    two-decimal rounding boundary; only then may an exact-rational model be compared with float code."""
+    """The exact rational total (from the implementation's own _scores strings, all four operators) is not
+    within 1e-6 of a two-decimal rounding boundary; only then may an exact-rational model be compared with
+    float code.  Strings the exact evaluator does not understand make the case unsafe (skipped, counted)."""
+    import re
     total = Fraction(0)
     for s in out['simple']['scores']:
-        inv = s.startswith('!')
-        body = s.lstrip('!')
-        v = score_value(body)
-        if v is None:
-            return True  # non-additive: compared as is (products of short decimals are exact enough or raise)
-        if not inv:
+        m = re.fullmatch(r'(!*)([+\-/*])?(\d+(?:\.\d*)?|\.\d+)(%)?(.*)', s)
+        if not m:
+            return False
+        if len(m.group(1)) % 2:
+            continue
+        v = Fraction(m.group(3))
+        if m.group(4):
+            v /= 100
+        op = m.group(2)
+        if op in (None, '+'):
             total += v
+        elif op == '-':
+            total -= v
+        elif op == '*':
+            total *= v
+        elif v == 0:
+            return True
+        else:
+            total /= v
     x = total * 100
     frac = x - (x.numerator // x.denominator)
     return abs(frac - Fraction(1, 2)) > Fraction(1, 10 ** 6)
